@@ -438,6 +438,23 @@ class StoreWorld:
     def _off(self, d: Any) -> Any:
         return None if d is None else round(d.timestamp() - STORE_T0, 6)
 
+    def inject(self, state: tuple, fired_ever: bool) -> None:
+        """Put this (fresh) world into a state that an earlier real execution produced: the stored last
+        execution through the public store_last_cron_execution (unconditional when nothing is expected),
+        the per-runner caches by assignment.  Merging equal dumps already assumes that a dump determines
+        the future of the component; the dump is compared after the injection."""
+        now, stored, caches, pending, model_last = state
+        if pending:
+            raise sched.HarnessError(f"cannot inject pending valid conditions: {state}")
+        if stored is not None:
+            self.apps[0].trigger.store_last_cron_execution(self.cond_id, _dt(STORE_T0 + stored))
+        for a, c in zip(self.apps, caches):
+            if c is not None:
+                a.trigger._last_cron_execution_cache[self.cond_id] = _dt(STORE_T0 + c)
+        self.now, self.model_last, self.fired_ever = now, model_last, fired_ever
+        if self.dump() != state:
+            raise sched.HarnessError(f"state injection failed: {self.dump()} != {state}")
+
     def stored_last(self) -> Any:
         return self._off(self.apps[0].trigger.get_last_cron_execution(self.cond_id))
 
@@ -466,13 +483,14 @@ def _store_alphabet(backend: str, hist: list, now: int, restarts: int, cfg: dict
 
 
 def _store_violation(w: StoreWorld, op: tuple, observed: int, predicted: int, stored_before: Any,
-                     fired_before: bool) -> tuple:
+                     fired_before: bool, last_before: int | None) -> tuple:
     """-> (signature, detail, classified).  Two causes are recognised by what was stored when the poll began."""
     m = w.orc.latest(w.now)
-    if observed > predicted:
-        due = m is not None and 0 <= w.now - m <= w.orc.limit
-        clause = "scheduled-minute-launched-twice" if due and observed == 1 else (
-            "launched-without-a-due-tick" if observed == 1 else f"poll-launched-{observed}")
+    if observed == 1 and predicted == 0:
+        # which promise the launch breaks: fires-outside-window | scheduled-minute-fires-twice | fires-before-min-interval
+        clause = (w.orc.judge(w.now, last_before, True) or ("launched-against-the-evaluator", {}))[0]
+    elif observed > predicted:
+        clause = f"one-poll-launched-{observed}"
     else:
         clause = "due-tick-not-launched"
     sig = {"clause": clause, "part": "store", "backend": w.backend, "config": w.cfg["name"], "op": op[0]}
@@ -484,94 +502,411 @@ def _store_violation(w: StoreWorld, op: tuple, observed: int, predicted: int, st
         sig = {"clause": clause, "part": "store", "backend": w.backend, "cause": cause}
     return sig, {"observed_launches": observed, "predicted": predicted, "now": w.now,
                  "now_utc": _dt(STORE_T0 + w.now).isoformat(), "latest_scheduled": m,
-                 "evaluator_last_firing": w.model_last, "stored_last_before_poll": stored_before,
+                 "last_firing_before_poll": last_before, "stored_last_before_poll": stored_before,
                  "config": w.cfg}, classified
 
 
-def _store_unit(item: tuple) -> Partial:
-    backend, name, tier_cfg = item
+REPLAY_EVERY = 25  # every n-th transition's history is re-executed from scratch (no injection) and compared
+STORE_CHUNKS = 48  # frontier chunks per level (fixed: the explored set does not depend on the worker count)
+
+
+def _store_replay(backend: str, cfg: dict, hist: list) -> tuple:
+    """Honest execution of a whole history on fresh components -> (world, result of the last operation)."""
+    w = StoreWorld(backend, cfg)
+    res: tuple = (0, 0, None)
+    for i, h in enumerate(hist):
+        res = w.apply(h, observe=i == len(hist) - 1)
+    return w, res
+
+
+def _store_chunk(item: tuple) -> tuple:
+    """Expand a slice of one BFS level: every operation of the alphabet from every state of the slice.
+    -> (Partial, [(new state, history, restarts used, a launch happened before)])."""
+    backend, name, tier_cfg, states = item
     cfg = dict(STORE_CFGS[name], name=name, **tier_cfg)
     p = Partial()
+    out: list[tuple] = []
+    local: set = set()
+    reported: set[str] = set()
+    n = 0
     try:
-        w = StoreWorld(backend, cfg)
-        seen = {w.dump()}
-        frontier: list[tuple] = [([], 0, 0)]
-        reported: set[str] = set()
-        longest: list = []
-        while frontier:
-            nxt = []
-            for hist, now, restarts in frontier:
-                for op in _store_alphabet(backend, hist, now, restarts, cfg):
-                    w = StoreWorld(backend, cfg)
-                    for h in hist:
-                        w.apply(h, observe=False)
-                    fired_before = w.fired_ever
-                    observed, predicted, stored_before = w.apply(op)
-                    p.count("transitions")
-                    p.count("traces_validated_against_impl")
-                    p.count("store_polls" if op[0] == "poll" else "store_restarts")
-                    p.count("store_launches", observed)
-                    if observed != predicted:
-                        sig, detail, classified = _store_violation(w, op, observed, predicted, stored_before,
-                                                                   fired_before)
-                        k = repr(sorted(sig.items()))
-                        if k not in reported:
-                            reported.add(k)
-                            detail["history"] = hist + [op]
-                            p.violation(sig, detail, {"kind": "store", "part": PART, "backend": backend,
-                                                      "config": name, "tier_cfg": tier_cfg, "history": hist + [op]})
-                        p.count("store_polls_violating")
-                        if not classified:
-                            continue  # only states behind a violation of a recognised cause are expanded
-                    d = w.dump()
-                    if d not in seen:
-                        seen.add(d)
-                        nxt.append((hist + [op], w.now, restarts + (op[0] == "restart")))
-                        longest = hist + [op]
-            frontier = nxt
-        p.count("bfs_states", len(seen))
-        p.add("store_configs", (backend, name))
-        p.sample({"part": "store", "backend": backend, "config": name, "states": len(seen),
-                  "a_longest_history": [list(o) for o in longest][:30]})
+        for st, hist, restarts, fired_ever in states:
+            for op in _store_alphabet(backend, hist, st[0], restarts, cfg):
+                w = StoreWorld(backend, cfg)
+                w.inject(st, fired_ever)
+                last_before = w.model_last
+                observed, predicted, stored_before = w.apply(op)
+                n += 1
+                p.count("transitions")
+                p.count("traces_validated_against_impl")
+                p.count("store_polls" if op[0] == "poll" else "store_restarts")
+                p.count("store_launches", observed)
+                d = w.dump()
+                if n % REPLAY_EVERY == 0:
+                    w2, res2 = _store_replay(backend, cfg, hist + [op])
+                    if w2.dump() != d or res2[:2] != (observed, predicted):
+                        raise sched.HarnessError(f"injected state and replayed history differ: {hist + [op]}")
+                    p.count("store_histories_replayed_from_scratch")
+                if observed != predicted:
+                    sig, detail, classified = _store_violation(w, op, observed, predicted, stored_before, fired_ever,
+                                                               last_before)
+                    k = repr(sorted(sig.items()))
+                    if k not in reported:
+                        # a violation is only reported after the whole history reproduced it without injection
+                        w2, res2 = _store_replay(backend, cfg, hist + [op])
+                        if w2.dump() != d or res2[:2] != (observed, predicted):
+                            raise sched.HarnessError(f"injected state and replayed history differ: {hist + [op]}")
+                        p.count("store_histories_replayed_from_scratch")
+                        reported.add(k)
+                        detail["history"] = hist + [op]
+                        p.violation(sig, detail, {"kind": "store", "part": PART, "backend": backend,
+                                                  "config": name, "tier_cfg": tier_cfg, "history": hist + [op]})
+                    p.count("store_polls_violating")
+                    if not classified:
+                        continue  # only states behind a violation of a recognised cause are expanded
+                if d not in local:
+                    local.add(d)
+                    out.append((d, hist + [op], restarts + (op[0] == "restart"), w.fired_ever))
     finally:
         env.CLOCK.frozen = False
-    return p
+    return p, out
+
+
+def _store_explore(ctx: Ctx, units: list[tuple]) -> None:
+    """Level-synchronous BFS of all (backend, configuration, variant) units; each level is expanded in parallel."""
+    seen: dict[tuple, set] = {}
+    frontier: dict[tuple, list] = {}
+    cfg_of: dict[tuple, dict] = {}
+    for backend, name, tier_cfg in units:
+        key = (backend, name, tier_cfg["variant"])
+        try:
+            w = StoreWorld(backend, dict(STORE_CFGS[name], name=name, **tier_cfg))
+            start = w.dump()
+        finally:
+            env.CLOCK.frozen = False
+        seen[key] = {start}
+        frontier[key] = [(start, [], 0, False)]
+        cfg_of[key] = tier_cfg
+    level = 0
+    longest: dict[tuple, list] = {}
+    while any(frontier.values()):
+        items, keys = [], []
+        for key, fr in frontier.items():
+            if not fr:
+                continue
+            k = max(1, min(STORE_CHUNKS, len(fr) // 4))
+            for i in range(k):
+                items.append((key[0], key[1], cfg_of[key], fr[i::k]))
+                keys.append(key)
+        results = par.pmap(_store_chunk, items)
+        frontier = {key: [] for key in frontier}
+        for key, (part, out) in zip(keys, results):
+            ctx.merge(part)
+            for d, hist, restarts, fired in out:
+                if d not in seen[key]:
+                    seen[key].add(d)
+                    frontier[key].append((d, hist, restarts, fired))
+                    longest[key] = hist
+        level += 1
+    ctx.max("store_bfs_levels", level)
+    for key, sset in seen.items():
+        ctx.count("bfs_states", len(sset))
+        ctx.add("store_configs", key)
+        ctx.extra.setdefault("store_states", {})["/".join(key)] = len(sset)
+        if key[1] == "every2-default":
+            ctx.sample({"part": "store", "backend": key[0], "config": key[1], "variant": key[2], "states": len(sset),
+                        "a_longest_history": [list(o) for o in longest.get(key, [])][:30]}, limit=6)
+
+
+def _store_units(ctx: Ctx) -> list[tuple]:
+    """SQLite state spaces are large (stored value x two runner caches x time): the variants trade the
+    10 s gap / free choice of the polling runner against each other; see notes/c13_cron.md for the sizes."""
+    coarse = [30, 60, 61, 120]
+    fine = list(STORE_GAPS)
+    units = []
+    names = list(STORE_CFGS) if ctx.thorough else ["every2-default", "list-w60-i70"]
+    for n in names:
+        units.append((env.MEM, n, dict(variant="all-gaps", gaps=fine, max_restarts=0, pollers="any")))
+        if ctx.thorough:
+            units.append((env.SQLITE, n, dict(variant="any-runner+restart", gaps=coarse, max_restarts=1, pollers="any")))
+        else:
+            units.append((env.SQLITE, n, dict(variant="alternating+restart", gaps=coarse, max_restarts=1,
+                                             pollers="alternate")))
+    if ctx.thorough:
+        units.append((env.SQLITE, "every2-default", dict(variant="alternating-all-gaps", gaps=fine, max_restarts=0,
+                                                        pollers="alternate")))
+    return units
 
 
 def _replay_store(r: dict) -> bool:
+    """Re-executes the recorded history from the empty system; the verdict is about its last operation."""
     cfg = dict(STORE_CFGS[r["config"]], name=r["config"], **r["tier_cfg"])
     bad = False
     try:
         w = StoreWorld(r["backend"], cfg)
-        for op in r["history"]:
-            fired_before = w.fired_ever
-            observed, predicted, stored_before = w.apply(tuple(op))
+        hist = [tuple(op) for op in r["history"]]
+        for i, op in enumerate(hist):
+            fired_before, last_before = w.fired_ever, w.model_last
+            observed, predicted, stored_before = w.apply(op)
             if observed != predicted:
-                print("  replayed:", _store_violation(w, tuple(op), observed, predicted, stored_before, fired_before)[0])
-                bad = True
+                sig = _store_violation(w, op, observed, predicted, stored_before, fired_before, last_before)[0]
+                print(f"  replayed (operation {i + 1}/{len(hist)}):", sig)
+                bad = i == len(hist) - 1
     finally:
         env.CLOCK.frozen = False
     return bad
 
 
 # ---------------------------------------------------------------------------
+# PART 3 — two concurrent trigger-loop iterations on one cron condition
+# ---------------------------------------------------------------------------
+SCHED_CFG = dict(STORE_CFGS["every2-default"], name="every2-default")
+SCHED_LINE_MODULES = ["pynenc.trigger.mem_trigger", "pynenc.trigger.base_trigger"]
+TICK0 = env.EPOCH0            # 22:14:00 UTC, scheduled by */2
+TICK1 = env.EPOCH0 + 120      # the next scheduled minute
+
+
+CAUSE_WINDOWS = {
+    "nothing-stored-yet:compare-and-swap-skipped-for-both-writers":
+        "read-last-execution (nothing) -> store-last-execution (nothing expected: unconditional write)",
+    "compare-and-swap-not-atomic:both-writers-saw-the-same-stored-value":
+        "inside store-last-execution: read stored value -> write",
+    "run-claim-not-atomic:both-claimed-the-same-run-id":
+        "inside claim-run: read claim -> write claim",
+}
+
+
+class _W:
+    """Minimal world object (ex.world): app objects, operation log for the logical windows."""
+
+    def __init__(self) -> None:
+        self.apps: list = []
+        self.ops: list[tuple] = []      # (tid, trace position at completion, name, position at start)
+        self.calls: list[tuple] = []    # (name, tid, argument of interest, result)
+        self.errors: list[tuple] = []
+        self.launched = 0
+
+
+class CronScn:
+    """desc: backend, firing first|later, clock same|ticking, bound."""
+
+    def __init__(self, desc: dict) -> None:
+        self.desc = desc
+        self.points = (SCHED_LINE_MODULES, "line") if desc["backend"] == env.MEM else None
+
+    @staticmethod
+    def logical_windows(ex: sched.Execution) -> list[str]:
+        """The race window of a double launch is named by its cause (which check-then-act was split), so that
+        the identity of the violation does not depend on the schedule that happened to exhibit it; other
+        violations keep the 'last operation -> next operation' windows of their deviations."""
+        from vf import worlds
+
+        cause = CronScn._cause(ex.world) if ex.world.launched > 1 else None
+        if cause is not None:
+            return [CAUSE_WINDOWS[cause]]
+        return worlds.logical_windows(ex)
+
+    @staticmethod
+    def _wrap(w: _W, trig: Any) -> None:
+        from vf import worlds
+
+        def logical(attr: str, name: str, arg_of: Any) -> None:
+            orig = getattr(trig, attr)
+
+            def wrapped(*a: Any, **k: Any) -> Any:
+                start = worlds._pos()
+                r = None
+                try:
+                    r = orig(*a, **k)
+                    return r
+                finally:
+                    w.ops.append((worlds._tid(), worlds._pos(), name, start))
+                    w.calls.append((name, worlds._tid(), arg_of(*a, **k), r if isinstance(r, bool) else None))
+
+            setattr(trig, attr, wrapped)
+
+        logical("get_last_cron_execution", "read-last-execution", lambda *a, **k: None)
+        logical("store_last_cron_execution", "store-last-execution",
+                lambda cid, t, expected_last_execution=None: None if expected_last_execution is None
+                else round(expected_last_execution.timestamp() - TICK0, 6))
+        logical("record_valid_conditions", "record-valid-condition", lambda *a, **k: None)
+        logical("get_valid_conditions", "read-valid-conditions", lambda *a, **k: None)
+        logical("claim_trigger_run", "claim-run", lambda run_id, *a, **k: run_id[:8])
+        logical("execute_task", "launch", lambda *a, **k: None)
+        logical("clear_valid_conditions", "clear-valid-conditions", lambda *a, **k: None)
+
+    def execute(self, choices: list[int], expect: Any) -> sched.Execution:
+        d = self.desc
+        env.reset_world(TICK0)
+        env.CLOCK.frozen = True
+        w = _W()
+        if d["backend"] == env.MEM:
+            app, task = _runner_app(env.MEM, SCHED_CFG, None)
+            w.apps = [app, app]  # two threads of one process share the trigger object
+        else:
+            db = env.reuse_db(APP_ID + "s")
+            pairs = [_runner_app(env.SQLITE, SCHED_CFG, db) for _ in range(2)]
+            w.apps = [a for a, _ in pairs]
+            task = pairs[0][1]
+        count = lambda: len(list(w.apps[0].orchestrator.get_task_invocation_ids(task.task_id)))  # noqa: E731
+        tick = TICK0
+        if d["firing"] == "later":
+            # an earlier, regular firing: runner 0 at 22:14:05; runner 1 polls at 22:14:20 (nothing due,
+            # its cache now holds the stored value); the contested tick is 22:16
+            env.CLOCK.now = TICK0 + 5
+            w.apps[0].trigger.trigger_loop_iteration()
+            env.CLOCK.now = TICK0 + 20
+            w.apps[1].trigger.trigger_loop_iteration()
+            if count() != 1:
+                raise sched.HarnessError(f"set-up firing launched {count()} invocations")
+            tick = TICK1
+        for a in w.apps:
+            a.state_backend.wait_for_all_async_operations()
+        for trig in {id(a.trigger): a.trigger for a in w.apps}.values():
+            self._wrap(w, trig)
+        before = count()
+        env.CLOCK.now = tick + 10  # both runners poll 10 s into the window
+        env.CLOCK.frozen = d["clock"] == "same"
+
+        def runner(k: int) -> Any:
+            def f() -> None:
+                try:
+                    w.apps[k].trigger.trigger_loop_iteration()
+                except sched.Abort:
+                    raise
+                except Exception as e:  # noqa: BLE001 - BaseRunner._check_atomic_services logs and goes on
+                    from vf import worlds
+
+                    w.errors.append((k, type(e).__name__, str(e)[:120], worlds._pos()))
+            return f
+
+        s = sched.Scheduler(choices, expect, max_points=6000, lazy=("_add_histories",))
+        ex = s.run([("runner0", runner(0)), ("runner1", runner(1))])
+        env.CLOCK.frozen = True
+        try:
+            for a in w.apps:
+                a.state_backend.wait_for_all_async_operations()
+            w.launched = count() - before
+        finally:
+            env.CLOCK.frozen = False
+        ex.world = w
+        return ex
+
+    def digest(self, ex: sched.Execution) -> Any:
+        w = ex.world
+        stores = tuple(sorted((c[2], c[3]) for c in w.calls if c[0] == "store-last-execution"))
+        claims = tuple(sorted(c[3] for c in w.calls if c[0] == "claim-run"))
+        return (w.launched, stores, claims, tuple(sorted(e[:2] for e in w.errors)), ex.outcome)
+
+    @staticmethod
+    def _cause(w: _W) -> str | None:
+        ok_stores = [c for c in w.calls if c[0] == "store-last-execution" and c[3] is True]
+        if len(ok_stores) >= 2:
+            exp = {c[2] for c in ok_stores}
+            if exp == {None}:
+                return "nothing-stored-yet:compare-and-swap-skipped-for-both-writers"
+            if len(exp) == 1:
+                return "compare-and-swap-not-atomic:both-writers-saw-the-same-stored-value"
+            return None
+        ok_claims = [c for c in w.calls if c[0] == "claim-run" and c[3] is True]
+        if len(ok_claims) >= 2 and len({c[2] for c in ok_claims}) == 1:
+            return "run-claim-not-atomic:both-claimed-the-same-run-id"
+        return None
+
+    def check(self, ex: sched.Execution, p: Partial) -> None:
+        w, d = ex.world, self.desc
+        base = dict(part="sched", backend=d["backend"], firing=d["firing"], clock=d["clock"])
+        if ex.outcome != "done":
+            p.violation({"clause": f"no-progress:{ex.outcome}", **base}, {"calls": w.calls[-12:]}, {})
+            return
+        for e in w.errors:
+            p.count("sched_polls_raising")
+        detail = {"launched": w.launched, "calls": [c for c in w.calls if c[0] in
+                                                    ("store-last-execution", "claim-run", "launch")],
+                  "errors": w.errors}
+        if w.launched > 1:
+            cause = self._cause(w)
+            if cause is not None:
+                # identity = which check-then-act was split (scenario and schedule are in the detail)
+                detail["scenario"] = base
+                p.violation({"clause": "tick-launched-twice", "part": "sched", "backend": d["backend"],
+                             "cause": cause}, detail, {})
+            else:
+                p.violation({"clause": "tick-launched-twice", **base}, detail, {})
+        elif w.launched == 0:
+            sig = {"clause": "tick-not-launched", **base}
+            if w.errors:
+                sig["raised"] = sorted({e[1] for e in w.errors})
+            p.violation(sig, detail, {})
+
+
+def build(desc: dict) -> CronScn:
+    return CronScn(desc)
+
+
+def _sched_descs(ctx: Ctx) -> list[dict]:
+    out = []
+    for backend in env.BACKENDS:
+        for firing in ("first", "later"):
+            for clock in ("ticking", "same"):
+                if backend == env.MEM:
+                    bound = 2 if ctx.thorough else 1   # ~300 line points per schedule
+                else:
+                    bound = 3 if ctx.thorough else 2
+                out.append(dict(backend=backend, firing=firing, clock=clock, bound=bound))
+    return out
+
+
+# ---------------------------------------------------------------------------
 def run_part(ctx: Ctx) -> None:
     only = getattr(ctx, "only", None) or ""
-    if not only or "pure" in only:
+    sub = only.split("/")[0]  # pure | store | sched [/<substring of a schedule descriptor>]
+    if sub not in ("", "pure", "store", "sched"):
+        sub = ""
+    if sub in ("", "pure"):
         items = _pure_items(ctx)
-        # largest first (every-minute expressions have the most states)
-        order = sorted(range(len(items)), key=lambda i: (items[i]["expr"] != "* * * * *", i))
-        rot = ctx.seed % len(order)
-        order = order[rot:] + order[:rot]
-        for part in par.pmap(_pure_unit, [items[i] for i in order]):
+        rot = ctx.seed % len(items)
+        for part in par.pmap(_pure_unit, items[rot:] + items[:rot]):
             ctx.merge(part)
-    if not only or "store" in only:
-        names = list(STORE_CFGS) if ctx.thorough else ["every2-default", "list-w60-i70"]
-        tier_cfg = dict(gaps=list(STORE_GAPS), max_restarts=1, pollers="any" if ctx.thorough else "alternate")
-        sitems = [(b, n, tier_cfg) for n in names for b in (env.SQLITE, env.MEM)]
-        for part in par.pmap(_store_unit, sitems):
-            ctx.merge(part)
-    ctx.rule = "cron"
+    if sub in ("", "store"):
+        _store_explore(ctx, _store_units(ctx))
+    if sub in ("", "sched"):
+        ds = _sched_descs(ctx)
+        if sub == "sched" and "/" in only:
+            ds = [d for d in ds if only.split("/", 1)[1] in e1.desc_key(d)]
+        e1.explore_all(ctx, MOD, ds, lambda d: d["bound"])
+    t = "thorough" if ctx.thorough else "quick"
+    ctx.rule = (
+        f"PURE: {len(EXPRS) + (len(EXPRS_THOROUGH) if ctx.thorough else 0)} expression/start pairs x "
+        + ("window {30,60,120} x min-interval {0,50,70} x timing {lenient, strict tol 10/30/90} (full product)"
+           if ctx.thorough else
+           "an orthogonal array (9 of 27) of window {30,60,120} x min-interval {0,50,70} x timing {lenient, strict 30, strict 90}")
+        + f" x every (poll second, last firing) pair reachable by poll gaps {list(GAPS if ctx.thorough else GAPS_QUICK)} s "
+        f"within {HORIZON if ctx.thorough else HORIZON_QUICK} s (BFS, exact-state dedupe, last firing moves only when the "
+        "real CronCondition.is_satisfied_by said yes) vs an own five-field minute matcher. "
+        "STORE: real trigger_loop_iteration() at frozen instants on MemTrigger (one runner) and SQLiteTrigger (two app objects on "
+        "one file, " + ("either may poll" if ctx.thorough else "polling alternately") + ", runner 1 may restart once = new app "
+        "object + register_deferred_triggers), level-parallel BFS over gaps (see extra.store_states for the variants), "
+        "launched invocations per poll == evaluator. "
+        "SCHED: two concurrent trigger_loop_iteration() 10 s into a window, first-ever and later firing, same instant "
+        "and 1 us apart; memory: one trigger object, a point at every line of mem_trigger/base_trigger; SQLite: two "
+        f"app objects, a point at every SQL statement; all schedules within the deviation bounds of extra.bounds ({t})."
+    )
+    ctx.assume("all instants are UTC; poll instants are whole seconds (the gaps are), the clock is frozen during a poll")
+    ctx.assume("a poll is attributed to the latest scheduled minute <= its instant; an older minute whose window still "
+               "covers the poll is superseded (catch-up of skipped minutes is not promised)")
+    ctx.assume("strict timing is read as: the effective window is min(check window, precision tolerance); only "
+               "safety is judged under strict timing")
+    ctx.assume("PURE: croniter's parse of the expression text is memoised (pure function of the text, deep copies); "
+               "a slice of every configuration's evaluations is repeated on the unmodified library")
+    ctx.assume("STORE: a state is re-entered by injection (public store_last_cron_execution + assignment of the "
+               "per-runner cache) - exactly the assumption that merging equal dumps makes; every 25th transition and "
+               "every reported violation is re-executed from the empty system and compared")
+    ctx.assume("STORE: trigger-run claims are keyed by the poll instant, which never recurs: they are not part of the state")
+    if ctx.counters.get("sched_polls_raising"):
+        ctx.notes.append("some concurrent polls raised (KeyError in MemTrigger.clear_valid_conditions / the clean-up of "
+                         "trigger_loop_iteration when the other thread removed the valid condition first); counted, "
+                         "judged only through the number of launches")
 
 
 def replay_part(payload: dict) -> bool:
